@@ -8,11 +8,12 @@ from absint import Agg, HRef, Ref, Sym, TOP, some, NONE, Event
 class Vec:
     """handle of a heap vector"""
 
-    def __init__(self, vid):
+    def __init__(self, vid, borrowed=False):
         self.vid = vid
+        self.borrowed = borrowed   # the handle stands for `&[T]` / `&Vec<T>`: iterating it yields references
 
     def __repr__(self):
-        return "Vec(%s)" % self.vid
+        return "Vec(%s%s)" % ("&" if self.borrowed else "", self.vid)
 
     def __eq__(self, o):
         return isinstance(o, Vec) and o.vid == self.vid
@@ -307,7 +308,7 @@ def coll_oracle(interp, env, f, args, t, bb, path):
             path.events.append(Event("shuffle", bb, v0.vid))
             interp.mstate["shuffled"] = interp.mstate.get("shuffled", ()) + (v0.vid,)
             return unit
-        by_ref = (f.get("resolved", {}).get("key") or "").startswith("<&") or ((f.get("gargs") or [""])[0].startswith("&")) or not isinstance(a0, Vec)
+        by_ref = (f.get("resolved", {}).get("key") or "").startswith("<&") or ((f.get("gargs") or [""])[0].startswith("&")) or not isinstance(a0, Vec) or a0.borrowed
         if nm in ("chunks", "chunks_exact", "chunks_mut", "chunks_exact_mut") and isinstance(args[1], int) and args[1] > 0:
             c = args[1]
             refs = [HRef(v0.vid, i) for i in range(len(items))]
@@ -325,7 +326,7 @@ def coll_oracle(interp, env, f, args, t, bb, path):
         if nm in ("to_vec", "to_owned", "clone") and (sa == "alloc::vec::Vec" or sty.startswith("[") or dk == "core::clone::Clone::clone"):
             return new_vec(interp, items)
         if nm in ("deref", "deref_mut", "as_slice", "as_mut_slice", "as_ref", "as_mut", "borrow", "borrow_mut"):
-            return v0
+            return Vec(v0.vid, borrowed=True)
         if nm == "swap" and all(isinstance(x, int) for x in args[1:3]):
             i, j = args[1], args[2]
             if max(i, j) >= len(items):
@@ -352,6 +353,29 @@ def coll_oracle(interp, env, f, args, t, bb, path):
             heap_set(interp, v0.vid, items)
             return unit
 
+    # ---- integer ranges and repeat
+    if isinstance(v0, Agg) and v0.name in ("core::ops::range::Range", "core::ops::range::RangeInclusive") and len(v0.fields) >= 2 \
+            and all(isinstance(x, int) and not isinstance(x, bool) for x in v0.fields[:2]):
+        lo, hi = v0.fields[0], v0.fields[1] + (1 if v0.name.endswith("Inclusive") else 0)
+        if nm == "into_iter":
+            return v0
+        if nm == "next" and isinstance(a0, Ref):
+            if lo >= hi:
+                return NONE
+            nf = list(v0.fields)
+            nf[0] = lo + 1
+            interp.write_place(env, [a0.local, a0.proj], Agg(v0.kind, v0.name, v0.variant, nf))
+            return some(lo)
+        if nm in ("len", "count"):
+            return max(0, hi - lo)
+        if nm in ("map", "filter", "collect", "rev", "skip", "take", "zip", "enumerate", "for_each", "all", "any", "cloned", "step_by", "chain", "sum", "min", "max") and hi - lo <= 64:
+            v0 = It(list(range(lo, hi)))
+    if dk in ("core::iter::sources::repeat::repeat", "core::iter::repeat"):
+        return Agg("repeat", None, None, [args[0]])
+    if isinstance(v0, Agg) and v0.kind == "repeat":
+        if nm == "take" and isinstance(args[1], int):
+            return It([v0.fields[0]] * args[1])
+        return TOP
     # ---- iterators
     if nm == "into_iter" and isinstance(v0, It):
         return v0
@@ -446,8 +470,14 @@ def coll_oracle(interp, env, f, args, t, bb, path):
                 v = new_vec(interp, inner)
                 return _ok(v) if good == "Ok" else some(v)
             return TOP
-        if nm == "count":
+        if nm in ("count", "len"):
             return len(it.items)
+        if nm == "sum":
+            vals = [load(interp, env, x) for x in it.items]
+            if all(isinstance(x, (int, float)) and not isinstance(x, bool) for x in vals):
+                isf = "f64" in (f.get("ret") or "") or any(isinstance(x, float) for x in vals)
+                return float(sum(vals)) if isf else sum(vals)
+            return TOP
         if nm in ("all", "any") and len(args) == 2:
             res = nm == "all"
             for x in it.items:
